@@ -10,22 +10,22 @@ Proof.
   destruct o; simpl; auto. now apply negb_true_iff in H1.
 Qed.
 
-Lemma run_rel : forall strict h d s, Rel strict d s -> Forall (fun o => wf_op strict o = true) h ->
-  fresh_adds h s = true -> Rel strict (run d h) (arun s h).
+Lemma run_rel : forall h d s, Rel d s -> Forall (fun o => wf_op o = true) h ->
+  fresh_adds h s = true -> Rel (run d h) (arun s h).
 Proof.
-  intros strict. induction h as [|o r IH]; intros d s R W F; [assumption|].
+  induction h as [|o r IH]; intros d s R W F; [assumption|].
   inversion W as [|? ? Wo Wr]; subst. apply fresh_adds_cons in F as [Fo Fr].
   simpl. apply IH; [|assumption|assumption]. now apply step_rel.
 Qed.
 
-Lemma history_refines : forall strict h d s, Rel strict d s -> Forall (fun o => wf_op strict o = true) h ->
+Lemma history_refines : forall h d s, Rel d s -> Forall (fun o => wf_op o = true) h ->
   fresh_adds h s = true -> observe (run d h) = Some (arun s h).
-Proof. intros strict h d s R W F. eapply observe_rel. eapply run_rel; eauto. Qed.
+Proof. intros h d s R W F. eapply observe_rel. eapply run_rel; eauto. Qed.
 
-Lemma history_from_empty : forall strict h, Forall (fun o => wf_op strict o = true) h ->
+Lemma history_from_empty : forall h, Forall (fun o => wf_op o = true) h ->
   fresh_adds h (empty_store 17) = true ->
   observe (run (empty_doc 17) h) = Some (arun (empty_store 17) h).
-Proof. intros strict h W F. eapply history_refines; eauto. apply rel_empty. Qed.
+Proof. intros h W F. eapply history_refines; eauto. apply rel_empty. Qed.
 
 (* ------------------------------------------------------------- attachments *)
 Definition att_op (o : op) : bool := match o with AAdd _ _ | ARemove _ => true | _ => false end.
@@ -67,19 +67,19 @@ Proof.
   destruct o; simpl in *; try reflexivity; discriminate.
 Qed.
 
-Lemma extract_rel : forall strict d s id, Rel strict d s -> extract d id = m_get id (s_att s).
-Proof. intros strict d s id R. unfold extract. now rewrite (readable_rel _ _ _ R), (r_att _ _ _ R). Qed.
+Lemma extract_rel : forall d s id, Rel d s -> extract d id = m_get id (s_att s).
+Proof. intros d s id R. unfold extract. now rewrite (readable_rel _ _ R), (r_att _ _ R). Qed.
 
-Lemma extract_returns_added : forall strict d s id data h,
-  Rel strict d s -> m_mem id (s_att s) = false ->
-  Forall (fun o => wf_op strict o = true) h -> forallb (fun o => negb (att_op o)) h = true ->
+Lemma extract_returns_added : forall d s id data h,
+  Rel d s -> m_mem id (s_att s) = false ->
+  Forall (fun o => wf_op o = true) h -> forallb (fun o => negb (att_op o)) h = true ->
   extract (run d (AAdd id data :: h)) id = Some data.
 Proof.
-  intros strict d s id data h R Fr W NA.
-  assert (R' : Rel strict (run d (AAdd id data :: h)) (arun s (AAdd id data :: h))).
+  intros d s id data h R Fr W NA.
+  assert (R' : Rel (run d (AAdd id data :: h)) (arun s (AAdd id data :: h))).
   { apply run_rel; [assumption|constructor; [reflexivity|assumption]|].
     simpl. rewrite Fr. simpl. now apply fresh_adds_no_att. }
-  rewrite (extract_rel _ _ _ _ R'). simpl. unfold arun in *. fold (arun (astep s (AAdd id data)) h).
+  rewrite (extract_rel _ _ _ R'). simpl. unfold arun in *. fold (arun (astep s (AAdd id data)) h).
   rewrite arun_att_unchanged by assumption.
   destruct s; simpl. apply m_get_set_same.
 Qed.
@@ -134,29 +134,18 @@ Proof.
   intros [ver kw pr pl pm vp att] k V. cbn [astep]. rewrite V. simpl. apply m_del_get.
 Qed.
 
-(* ------------------------------------------------------------- witnesses of the defects *)
-Definition no_vp : vprefs := [None;None;None;None;None;None;None;None;None;None;None;None;None;None;None;None].
-
-(* (iii) "remove all properties" keeps a property whose name needs a #xx escape ("a b") *)
-Lemma remove_all_escaped_refuted :
-  observe (run (empty_doc 17) [PAdd [([97; 32; 98], [118])]; PRemove []])
-  = Some (Store 17 [] [([97; 32; 98], [118])] None None None [])
-  /\ last_ok (empty_doc 17) [PAdd [([97; 32; 98], [118])]; PRemove []] = true.
-Proof. vm_compute. split; reflexivity. Qed.
-
-(* (iv) NonFullScreenPageMode = 3 (model.NFSPageModeUseOC) is written as /FullScreen: the
-   document no longer validates *)
-Lemma vp_nfs3_refuted :
-  last_ok (empty_doc 17) [VSet [None;None;None;None;None;None;Some 3;None;None;None;None;None;None;None;None;None]] = true
-  /\ observe (run (empty_doc 17) [VSet [None;None;None;None;None;None;Some 3;None;None;None;None;None;None;None;None;None]]) = None.
-Proof. vm_compute. split; reflexivity. Qed.
-
-(* (i), (ii) through whole histories *)
+(* ------------------------------------------------------------- witness of the open defect (i) *)
 Lemma kw_history_refuted :
   observe (run (empty_doc 17) [KAdd [[97; 44; 98]]]) = Some (Store 17 [[97]; [98]] [] None None None []).
 Proof. vm_compute. reflexivity. Qed.
 
-Lemma hash_history_refuted :
-  last_ok (empty_doc 17) [PAdd [([65; 35; 66], [118])]] = true
-  /\ observe (run (empty_doc 17) [PAdd [([65; 35; 66], [118])]]) = None.
-Proof. vm_compute. split; reflexivity. Qed.
+(* regressions of the three repaired defects, on the model: a name with '#', "remove all
+   properties" with a name that needs a #xx escape, NFSPageModeUseOC (= PageModeUseOC = 4) *)
+Lemma repaired_regressions :
+  observe (run (empty_doc 17) [PAdd [([65; 35; 66], [118])]])
+  = Some (Store 17 [] [([65; 35; 66], [118])] None None None [])
+  /\ observe (run (empty_doc 17) [PAdd [([97; 32; 98], [118])]; PRemove []])
+     = Some (Store 17 [] [] None None None [])
+  /\ observe (run (empty_doc 17) [VSet [None;None;None;None;None;None;Some 4;None;None;None;None;None;None;None;None;None]])
+     = Some (Store 17 [] [] None None (Some [None;None;None;None;None;None;Some 4;None;None;None;None;None;None;None;None;None]) []).
+Proof. vm_compute. repeat split; reflexivity. Qed.
